@@ -497,15 +497,22 @@ def run(facts, tier):
                  "xml_info::XmlProcessingInstruction::empty", "xml_info::XmlProcessingInstruction::set_content"):
         f = facts.fn(path)
         st["instances"] += 1
-        trees, rests = parser_bound_locals(f)
-        uses = [n for n in walk(f["body"]) if n.get("k") in ("Call", "MethodCall", "Assign") and
-                any(root_local(a) in trees for a in (n.get("args") or []) + ([n["r"]] if n.get("k") == "Assign" else []))]
-        ok = bool(trees) and bool(uses) and all(under_rest_test(f, u, rests) for u in uses)
+        ok = False
+        for g in facts.family(f):          # the function or the private piece of it that talks to the parser
+            trees, rests = parser_bound_locals(g)
+            if not trees:
+                continue
+            uses = [n for n in walk(g["body"]) if n.get("k") in ("Call", "MethodCall", "Assign") and
+                    any(root_local(a) in trees for a in (n.get("args") or []) + ([n["r"]] if n.get("k") == "Assign" else []))]
+            ok = bool(uses) and all(under_rest_test(g, u, rests) for u in uses)
+            break
         res.oblige(1, ok)
         if not ok:
             res.add(Finding("R15-1", path.split("::", 1)[1], "%s uses the parsed tree without testing that the rest is empty" % path, f["file"], f["line"], {}))
         # R15-2
-        tmpl = templates_of(f["body"], macs=("format",))
+        tmpl = []
+        for g in facts.family(f):
+            tmpl = tmpl or templates_of(g["body"], macs=("format",))
         ty = f.get("impl_self")
         disp = facts.fn_opt("xml_info::<%s as std::fmt::Display>::fmt" % ty)
         if tmpl and disp:
